@@ -216,7 +216,11 @@ func Power(ctx *expr.Context, input system.Collection, args ...expr.Expression) 
 			return nil, err
 		}
 		// Powering ints
-		res := powInt32(number, exp)
+		res, ok := powInt32(number, exp)
+		if !ok {
+			// the result does not fit an Integer
+			return system.Collection{}, nil
+		}
 		return system.Collection{system.Integer(res)}, nil
 	}
 	// Input type conversion to float64
@@ -371,18 +375,31 @@ func logToBase(number, base float64) float64 {
 	return math.Log(number) / math.Log(base)
 }
 
-// powInt32 returns the powering of a number to a given exponential.
-func powInt32(base, exp int32) int32 {
+// powInt32 returns the powering of a number to a given exponential, and
+// false if the result overflows.
+func powInt32(base, exp int32) (int32, bool) {
 	if exp == 0 {
-		return 1
+		return 1, true
 	}
 	if exp < 0 {
-		return 0
+		return 0, true
 	}
 
-	result := base
-	for i := int32(2); i <= exp; i++ {
-		result *= base
+	// exponentiation by squaring, with overflow detection
+	result, factor := system.Integer(1), system.Integer(base)
+	for {
+		var err error
+		if exp&1 == 1 {
+			if result, err = result.Mul(factor); err != nil {
+				return 0, false
+			}
+		}
+		exp >>= 1
+		if exp == 0 {
+			return int32(result), true
+		}
+		if factor, err = factor.Mul(factor); err != nil {
+			return 0, false
+		}
 	}
-	return result
 }
